@@ -429,7 +429,13 @@ func sqlChecks(t *node, text string, withRows bool) {
 		}
 		rtAssert("param-values-in-order", same)
 		if sub, sok := substitute(psql, params); sok {
-			rtAssert("param-substitution-equals-inline", sub == sql)
+			// compared as SQL trees, not as text: formatting of the inline SQL is free
+			sast, _, sok2 := pgParse(sub)
+			if ok && sok2 {
+				rtAssert("param-substitution-equals-inline", sqlTreeEqual(sast, ast))
+			} else if ok {
+				rtAssert("param-substitution-equals-inline", false)
+			}
 		}
 	}
 	// --- C03: the predicate PostgreSQL reads is true on exactly the rows the query means
